@@ -14,7 +14,7 @@ type pair[K, V any] struct {
 }
 
 func NewIntegerIter(n int) Iterator[pair[int, any]] {
-	return &integerIter{n: n}
+	return &integerIter{n: n, i: -1}
 }
 
 func NewStringIter(str string) Iterator[pair[int, rune]] {
@@ -41,8 +41,11 @@ type integerIter struct {
 }
 
 func (i *integerIter) MoveNext() bool {
+	if i.i+1 >= i.n {
+		return false
+	}
 	i.i++
-	return i.i <= i.n
+	return true
 }
 
 func (i *integerIter) Current() pair[int, any] {
